@@ -262,7 +262,11 @@ class StateSpaceMaker(object):
             # Perhaps ignore L since the current through it is a
             # state variable?
             name2 = cpt_map[name]
-            yexprs.append(sscct[name2].i.subs(subsdict).expand().expr)
+            i = sscct[name2].i
+            if name2 != name:
+                # L or C replaced by a source: undo the source sign convention
+                i = current_sign(current_sign(i, True), False)
+            yexprs.append(i.subs(subsdict).expand().expr)
             y.append(current('i_%s(t)' % name))
 
         if statesyms != [] and yexprs != []:
